@@ -376,7 +376,8 @@ def replay_chain(tdgl, chain, H, variant):
             if json.dumps(want, sort_keys=True) != json.dumps(got, sort_keys=True):
                 diffs.append({"step": n + 1, "form": form, "expected": {"out": want[0], "res": want[1], "objs": want[2], "devs": want[3]},
                               "observed": {"out": got[0], "res": got[1], "objs": got[2], "devs": got[3]}})
-    return {"kind": "chain", "H": H, "ev": ev, "key": chain_key(chain), "variant": variant, "forms": forms, "pydiff": diffs[:1]}
+    return {"kind": "chain", "H": H, "ev": ev, "key": chain_key(chain), "variant": variant, "forms": forms, "pydiff": diffs[:1],
+            "ops": [st["o"] for st in chain]}
 
 
 def replay_chains(tdgl, args, tmp):
@@ -385,6 +386,21 @@ def replay_chains(tdgl, args, tmp):
     for chain, v in zip(args["chains"], args["variants"]):
         out.append(replay_chain(tdgl, chain, args["H"], v))
     return out
+
+
+def replay_chains_to_file(tdgl, args, tmp):
+    """Worker entry point for large batches: replays the chains (operations only), writes the stripped traces as one
+    TLC batch file and returns only small per-trace metadata (the main process never holds the trace bodies; a
+    rejected trace is re-recorded there from its chain and variant, which is deterministic)."""
+    traces, meta = [], []
+    for ops, v in zip(args["chains"], args["variants"]):
+        t = replay_chain(tdgl, [{"o": o} for o in ops], args["H"], v)
+        traces.append(strip_trace(t))
+        meta.append({"key": t["key"], "forms": t["forms"], "n": len(t["ev"]),
+                     "ops": [[e["op"], e["kind"], e["inplace"], e["out"]] for e in t["ev"]]})
+    with open(args["out"], "w") as f:
+        json.dump(traces, f)
+    return {"kind": "chainfile", "file": args["out"], "first": args["first"], "meta": meta}
 
 
 def strip_trace(t):
@@ -589,4 +605,5 @@ def relation_trace(tdgl, args, tmp):
                "what": what + ".translate"})
     ev.append({"rel": "ident", "same": any(x is y for x in D2.polygons for y in dev.polygons), "expect": False,
                "clause": "CopiesDoNotAlias", "what": "Device.translate(inplace=False) shares no polygon"})
-    return {"kind": "rel", "ev": ev, "key": f"rel seed={args['seed']}: " + " ; ".join(steps), "nset": nset}
+    return {"kind": "rel", "ev": ev, "key": f"rel seed={args['seed']}: " + " ; ".join(steps), "nset": nset, "seed": args["seed"],
+            "transforms": args.get("transforms", 3)}
